@@ -70,128 +70,130 @@ func TestC10(t *testing.T) {
 		far := time.Duration(rapid.IntRange(1, 3600).Draw(rt, "far_s")) * time.Second
 		runtime.GOMAXPROCS(procs)
 		var viol string
-		synctest.Test(t, func(t *testing.T) {
-			start := time.Now()
-			// helper goroutines (feeder, cancel timers) must have finished
-			// before the bubble's root function returns
-			defer time.Sleep(time.Hour)
-			var tr *wire.Conn
-			if nchunks == 0 {
-				tr = wire.New(record, nil)
-			} else {
-				tr = wire.New(record[:cuts[0]], nil)
-				go func() {
-					for i := range cuts {
-						time.Sleep(start.Add(times[i]).Sub(time.Now()))
-						end := len(record)
-						if i+1 < len(cuts) {
-							end = cuts[i+1]
-						}
-						tr.Feed(record[cuts[i]:end])
-					}
-				}()
-			}
-			var callerDeadline time.Time
-			if callerDL {
-				callerDeadline = start.Add(time.Hour)
-				tr.SetDeadline(callerDeadline)
-			}
-			var ctx context.Context
-			var cancel context.CancelFunc
-			timerDriven := slot == "blocked" || slot == "at_completion" || slot == "expire_after"
-			switch {
-			case kind == "timeout_cancelled_early" || kind == "deadline_cancelled_early":
-				// a context that has a (far) deadline of its own but is cancelled before it
-				if kind == "timeout_cancelled_early" {
-					ctx, cancel = context.WithTimeout(context.Background(), tc+T1+far)
+		watch("C10", map[string]any{"keys": keysReplay([]*hello.Key{sc.Key}), "client_stream": hx(record), "slot": slot, "kind": kind}, func() {
+			synctest.Test(t, func(t *testing.T) {
+				start := time.Now()
+				// helper goroutines (feeder, cancel timers) must have finished
+				// before the bubble's root function returns
+				defer time.Sleep(time.Hour)
+				var tr *wire.Conn
+				if nchunks == 0 {
+					tr = wire.New(record, nil)
 				} else {
-					ctx, cancel = context.WithDeadline(context.Background(), start.Add(tc+T1+far))
+					tr = wire.New(record[:cuts[0]], nil)
+					go func() {
+						for i := range cuts {
+							time.Sleep(start.Add(times[i]).Sub(time.Now()))
+							end := len(record)
+							if i+1 < len(cuts) {
+								end = cuts[i+1]
+							}
+							tr.Feed(record[cuts[i]:end])
+						}
+					}()
 				}
-				if timerDriven {
-					go func() { time.Sleep(tc); cancel() }()
+				var callerDeadline time.Time
+				if callerDL {
+					callerDeadline = start.Add(time.Hour)
+					tr.SetDeadline(callerDeadline)
 				}
-			case timerDriven && kind == "timeout":
-				ctx, cancel = context.WithTimeout(context.Background(), tc)
-			case timerDriven && kind == "deadline":
-				ctx, cancel = context.WithDeadline(context.Background(), start.Add(tc))
-			case kind == "parent":
-				parent, pcancel := context.WithCancel(context.Background())
-				ctx, _ = context.WithCancel(parent)
-				cancel = pcancel
-				if timerDriven {
-					go func() { time.Sleep(tc); pcancel() }()
+				var ctx context.Context
+				var cancel context.CancelFunc
+				timerDriven := slot == "blocked" || slot == "at_completion" || slot == "expire_after"
+				switch {
+				case kind == "timeout_cancelled_early" || kind == "deadline_cancelled_early":
+					// a context that has a (far) deadline of its own but is cancelled before it
+					if kind == "timeout_cancelled_early" {
+						ctx, cancel = context.WithTimeout(context.Background(), tc+T1+far)
+					} else {
+						ctx, cancel = context.WithDeadline(context.Background(), start.Add(tc+T1+far))
+					}
+					if timerDriven {
+						go func() { time.Sleep(tc); cancel() }()
+					}
+				case timerDriven && kind == "timeout":
+					ctx, cancel = context.WithTimeout(context.Background(), tc)
+				case timerDriven && kind == "deadline":
+					ctx, cancel = context.WithDeadline(context.Background(), start.Add(tc))
+				case kind == "parent":
+					parent, pcancel := context.WithCancel(context.Background())
+					ctx, _ = context.WithCancel(parent)
+					cancel = pcancel
+					if timerDriven {
+						go func() { time.Sleep(tc); pcancel() }()
+					}
+				default:
+					ctx, cancel = context.WithCancel(context.Background())
+					if timerDriven {
+						go func() { time.Sleep(tc); cancel() }()
+					}
 				}
-			default:
-				ctx, cancel = context.WithCancel(context.Background())
-				if timerDriven {
-					go func() { time.Sleep(tc); cancel() }()
-				}
-			}
-			defer cancel()
-			c, err := newConn(ctx, tr, echKeys(sc.Key))
-			ret := time.Since(start)
-			tr.MarkReturned()
-			if isPanic(err) {
-				viol = fmt.Sprintf("panic: %v", err)
-				return
-			}
-			switch slot {
-			case "blocked":
-				if err == nil {
-					viol = fmt.Sprintf("context ended at %v while NewConn was blocked (hello complete at %v) but NewConn succeeded", tc, T1)
-				} else if ret != tc {
-					viol = fmt.Sprintf("context ended at %v while NewConn was blocked, NewConn returned at %v", tc, ret)
-				}
-				return
-			case "after_return_now":
-				cancel()
-			case "after_return_eps":
-				time.Sleep(eps)
-				cancel()
-			case "expire_after", "at_completion":
-				time.Sleep(2 * eps)
-			}
-			synctest.Wait()
-			if err != nil {
-				if slot == "at_completion" {
-					return // tie: failing is allowed
-				}
-				viol = fmt.Sprintf("NewConn failed although its context ended only after the hello was complete (slot %s): %v", slot, err)
-				return
-			}
-			if ret != T1 {
-				viol = fmt.Sprintf("NewConn returned at %v, hello complete at %v", ret, T1)
-				return
-			}
-			_, events := tr.Snapshot()
-			for _, e := range events {
-				if e.After && (e.Kind == "setdeadline" || e.Kind == "setreaddeadline" || e.Kind == "setwritedeadline") {
-					viol = fmt.Sprintf("%s(%v) on the transport %v after NewConn had returned successfully (slot %s, GOMAXPROCS %d)", e.Kind, e.DL.Sub(start), e.T.Sub(start.Add(ret)), slot, procs)
+				defer cancel()
+				c, err := newConn(ctx, tr, echKeys(sc.Key))
+				ret := time.Since(start)
+				tr.MarkReturned()
+				if isPanic(err) {
+					viol = fmt.Sprintf("panic: %v", err)
 					return
 				}
-			}
-			rdl, wdl := tr.Deadlines()
-			if !rdl.Equal(callerDeadline) || !wdl.Equal(callerDeadline) {
-				viol = fmt.Sprintf("transport deadlines are (%v,%v) after NewConn returned, the caller had set %v", rdl, wdl, callerDeadline)
-				return
-			}
-			// later I/O must work
-			got, e := readOneRecord(c)
-			if e != nil || !sameRecord(got, hello.Record(22, 0x0303, sc.WantInner)) {
-				viol = fmt.Sprintf("Read after the context ended failed: %v", e)
-				return
-			}
-			if _, e := c.Write(hello.Record(23, 0x0303, []byte("pong"))); e != nil {
-				viol = fmt.Sprintf("Write after the context ended failed: %v", e)
-				return
-			}
-			next := hello.Record(23, 0x0303, []byte("ping"))
-			go func() { time.Sleep(time.Second); tr.Feed(next) }()
-			got, e = readOneRecord(c)
-			if e != nil || string(got) != string(next) {
-				viol = fmt.Sprintf("blocking Read after the context ended failed: %v", e)
-				return
-			}
+				switch slot {
+				case "blocked":
+					if err == nil {
+						viol = fmt.Sprintf("context ended at %v while NewConn was blocked (hello complete at %v) but NewConn succeeded", tc, T1)
+					} else if ret != tc {
+						viol = fmt.Sprintf("context ended at %v while NewConn was blocked, NewConn returned at %v", tc, ret)
+					}
+					return
+				case "after_return_now":
+					cancel()
+				case "after_return_eps":
+					time.Sleep(eps)
+					cancel()
+				case "expire_after", "at_completion":
+					time.Sleep(2 * eps)
+				}
+				synctest.Wait()
+				if err != nil {
+					if slot == "at_completion" {
+						return // tie: failing is allowed
+					}
+					viol = fmt.Sprintf("NewConn failed although its context ended only after the hello was complete (slot %s): %v", slot, err)
+					return
+				}
+				if ret != T1 {
+					viol = fmt.Sprintf("NewConn returned at %v, hello complete at %v", ret, T1)
+					return
+				}
+				_, events := tr.Snapshot()
+				for _, e := range events {
+					if e.After && (e.Kind == "setdeadline" || e.Kind == "setreaddeadline" || e.Kind == "setwritedeadline") {
+						viol = fmt.Sprintf("%s(%v) on the transport %v after NewConn had returned successfully (slot %s, GOMAXPROCS %d)", e.Kind, e.DL.Sub(start), e.T.Sub(start.Add(ret)), slot, procs)
+						return
+					}
+				}
+				rdl, wdl := tr.Deadlines()
+				if !rdl.Equal(callerDeadline) || !wdl.Equal(callerDeadline) {
+					viol = fmt.Sprintf("transport deadlines are (%v,%v) after NewConn returned, the caller had set %v", rdl, wdl, callerDeadline)
+					return
+				}
+				// later I/O must work
+				got, e := readOneRecord(c)
+				if e != nil || !sameRecord(got, hello.Record(22, 0x0303, sc.WantInner)) {
+					viol = fmt.Sprintf("Read after the context ended failed: %v", e)
+					return
+				}
+				if _, e := c.Write(hello.Record(23, 0x0303, []byte("pong"))); e != nil {
+					viol = fmt.Sprintf("Write after the context ended failed: %v", e)
+					return
+				}
+				next := hello.Record(23, 0x0303, []byte("ping"))
+				go func() { time.Sleep(time.Second); tr.Feed(next) }()
+				got, e = readOneRecord(c)
+				if e != nil || string(got) != string(next) {
+					viol = fmt.Sprintf("blocking Read after the context ended failed: %v", e)
+					return
+				}
+			})
 		})
 		if viol != "" {
 			ev.Violation(rt, "C10", map[string]any{"keys": keysReplay([]*hello.Key{sc.Key}), "client_stream": hx(record), "cuts": cuts, "times_ms": times, "slot": slot, "kind": kind, "gomaxprocs": procs, "tc": tc.String(), "caller_deadline": callerDL}, "%s", viol)
